@@ -1,0 +1,106 @@
+//go:build verif
+
+package quic
+
+// Export shims for the connection-level unit of the C07 (ACK generation) check of the verification
+// harness in /verif. Compiled only with -tags verif. Add-only, no behaviour change. They build on
+// VerifSendLoopConn (verif_hooks_c20.go):
+//
+//   - VerifNewConnAckConn is VerifNewSendLoopConn with an unpacker that, in addition to reading the
+//     cleartext packets, rejects packets marked as undecryptable with handshake.ErrDecryptionFailed
+//     (what the real unpacker returns for a packet that fails authentication; the connection drops it);
+//   - ReceiveBatch queues several datagrams for the run loop in one step, so that a single
+//     Conn.handlePackets call finds all of them (a recvmmsg / GRO batch, or datagrams that arrived
+//     while the run loop was busy). It does what consecutive Conn.handlePacket calls do, without
+//     letting the run loop run in between.
+
+import (
+	"encoding/binary"
+	"time"
+
+	"github.com/refraction-networking/uquic/internal/handshake"
+	"github.com/refraction-networking/uquic/internal/monotime"
+	"github.com/refraction-networking/uquic/internal/protocol"
+	"github.com/refraction-networking/uquic/internal/wire"
+)
+
+// verifUndecryptableBit marks a cleartext packet that the unpacker must reject.
+const verifUndecryptableBit = 0x01
+
+type verifRejectingUnpacker struct{ unpacker }
+
+func (u *verifRejectingUnpacker) UnpackShortHeader(rcvTime monotime.Time, data []byte) (protocol.PacketNumber, protocol.PacketNumberLen, protocol.KeyPhaseBit, []byte, error) {
+	if len(data) > 0 && data[0]&verifUndecryptableBit != 0 {
+		return 0, 0, 0, nil, handshake.ErrDecryptionFailed
+	}
+	return u.unpacker.UnpackShortHeader(rcvTime, data)
+}
+
+// VerifNewConnAckConn is VerifNewSendLoopConn; additionally packets injected with
+// VerifRcvdPacket.Undecryptable are rejected by the unpacker with handshake.ErrDecryptionFailed.
+func VerifNewConnAckConn(sc VerifSendConn, pk VerifPacker, conf *Config, initialRTT time.Duration, peer *wire.TransportParameters) (*VerifSendLoopConn, error) {
+	v, err := VerifNewSendLoopConn(sc, pk, conf, initialRTT, peer)
+	if err != nil {
+		return nil, err
+	}
+	v.c.unpacker = &verifRejectingUnpacker{unpacker: v.c.unpacker}
+	return v, nil
+}
+
+// VerifRcvdPacket describes one datagram carrying one cleartext 1-RTT packet.
+type VerifRcvdPacket struct {
+	PN            protocol.PacketNumber
+	Frames        []wire.Frame
+	ECN           protocol.ECN
+	Undecryptable bool // the unpacker rejects it (needs a connection built by VerifNewConnAckConn)
+}
+
+// ReceiveBatch queues the datagrams in order, all with the current time as receive time, and then
+// notifies the run loop once. Safe on any goroutine.
+func (v *VerifSendLoopConn) ReceiveBatch(pkts []VerifRcvdPacket) error {
+	now := monotime.Now()
+	rps := make([]receivedPacket, 0, len(pkts))
+	for _, p := range pkts {
+		buf := getPacketBuffer()
+		b := buf.Data[:0]
+		first := byte(0x40)
+		if p.Undecryptable {
+			first |= verifUndecryptableBit
+		}
+		b = append(b, first)
+		b = append(b, v.srcConnID.Bytes()...)
+		b = binary.BigEndian.AppendUint64(b, uint64(p.PN))
+		for _, f := range p.Frames {
+			var err error
+			b, err = f.Append(b, v.c.version)
+			if err != nil {
+				buf.Release()
+				for _, rp := range rps {
+					rp.buffer.Release()
+				}
+				return err
+			}
+		}
+		if p.Undecryptable {
+			b = append(b, make([]byte, protocol.MinReceivedStatelessResetSize)...)
+		}
+		buf.Data = b
+		rps = append(rps, receivedPacket{remoteAddr: v.remoteAddr, rcvTime: now, data: buf.Data, buffer: buf, ecn: p.ECN})
+	}
+	v.c.receivedPacketMx.Lock()
+	for _, rp := range rps {
+		v.c.receivedPackets.PushBack(rp)
+	}
+	v.c.receivedPacketMx.Unlock()
+	select {
+	case v.c.notifyReceivedPacket <- struct{}{}:
+	default:
+	}
+	return nil
+}
+
+// AckAlarm is receivedPacketHandler.GetAlarmTimeout (diagnostics). Call it on the run-loop goroutine
+// or while the run loop is blocked.
+func (v *VerifSendLoopConn) AckAlarm() monotime.Time {
+	return v.c.receivedPacketHandler.GetAlarmTimeout()
+}
